@@ -341,7 +341,7 @@ func genC14(r *rand.Rand, w *W) [][]string {
 		if r.Intn(3) == 0 {
 			init = []string{"zz", "keep"}
 		}
-		if r.Intn(10) == 0 { // a parameter already in the context that is named like a domain parameter (known finding F28)
+		if r.Intn(10) == 0 { // a parameter already in the context that is named like a domain parameter (F28, repaired)
 			init = append(init, pick(r, []string{"sub", "tld", "n", "a", "all"}), "before")
 		}
 		op := append([]string{"hmatch", host}, list(init...)...)
